@@ -592,7 +592,8 @@ impl<'a> EventListenerFuture for RawUpgrade<'a> {
             };
         }
 
-        // We are done.
+        // We are done. Stop listening: a completed future must not absorb later notifications.
+        *this.listener = None;
         Poll::Ready(this.lock.take().unwrap())
     }
 }
